@@ -116,3 +116,74 @@ Proof.
     + rewrite leaf_of_var. exact Hf.
     + cbn [walk_to n_vars]. now rewrite find_set_eq.
 Qed.
+
+Lemma info_at_empty es i : info_at empty_node es = Some i -> i = ([], None).
+Proof. unfold info_at. destruct es as [|[k|p] es]; cbn; intros H; inversion H; reflexivity. Qed.
+
+(* what is stored where after an update: only the node the edges lead to is rewritten; nodes created
+   on the way are empty *)
+Lemma upd_info_inv es0 : forall f nd nd' leaf' es i,
+  keeps_children f -> upd es0 f nd = Ok nd' -> f (leaf_of nd es0) = Ok leaf' ->
+  info_at nd' es = Some i ->
+  (keys es = keys es0 /\ i = info leaf') \/ info_at nd es = Some i \/ i = ([], None).
+Proof.
+  induction es0 as [|[k|pat] es0 IH]; intros f nd nd' leaf' es i Hk H Hf Hi; cbn in H.
+  - unfold leaf_of in Hf. cbn in Hf. rewrite Hf in H. inversion H; subst nd'.
+    destruct (Hk _ _ Hf) as [Hs Hv].
+    destruct es as [|[k2|p2] es].
+    + left. unfold info_at in Hi. cbn in Hi. inversion Hi. auto.
+    + right. left. unfold info_at in *. cbn [walk_to] in *. now rewrite Hs in Hi.
+    + right. left. unfold info_at in *. cbn [walk_to] in *. now rewrite Hv in Hi.
+  - destruct (upd es0 f _) as [c'| | |] eqn:Eu; try discriminate. inversion H; subst nd'. clear H.
+    rewrite leaf_of_lit in Hf.
+    destruct es as [|[k2|p2] es].
+    + right. left. unfold info_at in *. cbn in *. exact Hi.
+    + destruct (list_eq_dec N.eq_dec k2 k) as [->|Hne].
+      * unfold info_at in Hi. cbn [walk_to n_segs] in Hi. rewrite assoc_set_eq in Hi.
+        destruct (IH f _ c' leaf' es i Hk Eu Hf Hi) as [[E1 E2]|[E|E]].
+        -- left. split; [unfold keys in *; cbn [map]; now f_equal|exact E2].
+        -- destruct (assoc k (n_segs nd)) as [c|] eqn:Ea.
+           ++ right. left. unfold info_at. cbn [walk_to]. now rewrite Ea.
+           ++ right. right. now apply (info_at_empty es).
+        -- right. right. exact E.
+      * right. left. unfold info_at in *. cbn [walk_to n_segs] in *. now rewrite assoc_set_neq in Hi.
+    + right. left. unfold info_at in *. cbn [walk_to n_vars] in *. exact Hi.
+  - destruct (upd es0 f _) as [c'| | |] eqn:Eu; try discriminate. inversion H; subst nd'. clear H.
+    rewrite leaf_of_var in Hf.
+    destruct es as [|[k2|p2] es].
+    + right. left. unfold info_at in *. cbn in *. exact Hi.
+    + right. left. unfold info_at in *. cbn [walk_to n_segs] in *. exact Hi.
+    + destruct (list_eq_dec N.eq_dec (spell p2) (spell pat)) as [E0|Hne].
+      * unfold info_at in Hi. cbn [walk_to n_vars] in Hi. rewrite E0, find_set_eq in Hi.
+        destruct (IH f _ c' leaf' es i Hk Eu Hf Hi) as [[E1 E2]|[E|E]].
+        -- left. split; [unfold keys in *; cbn [map edge_key]; rewrite E0; now f_equal|exact E2].
+        -- destruct (find_var (spell pat) (n_vars nd)) as [c|] eqn:Ea.
+           ++ right. left. unfold info_at. cbn [walk_to]. now rewrite E0, Ea.
+           ++ right. right. now apply (info_at_empty es).
+        -- right. right. exact E.
+      * right. left. unfold info_at in *. cbn [walk_to n_vars] in *. now rewrite find_set_neq in Hi.
+Qed.
+
+(* ... and everything stored elsewhere stays *)
+Lemma upd_info_keep es0 : forall f nd nd' es i,
+  keeps_children f -> upd es0 f nd = Ok nd' -> keys es <> keys es0 ->
+  info_at nd es = Some i -> info_at nd' es = Some i.
+Proof.
+  induction es0 as [|[k|pat] es0 IH]; intros f nd nd' es i Hk H Hne Hi; cbn in H.
+  - destruct (Hk _ _ H) as [Hs Hv].
+    destruct es as [|[k2|p2] es]; [contradiction| |]; unfold info_at in *; cbn [walk_to] in *.
+    + now rewrite Hs.
+    + now rewrite Hv.
+  - destruct (upd es0 f _) as [c'| | |] eqn:Eu; try discriminate. inversion H; subst nd'. clear H.
+    destruct es as [|[k2|p2] es]; unfold info_at in *; cbn [walk_to n_segs n_vars] in *; auto.
+    destruct (list_eq_dec N.eq_dec k2 k) as [->|Hnk].
+    + rewrite assoc_set_eq. destruct (assoc k (n_segs nd)) as [c|] eqn:Ea; [|discriminate].
+      apply (IH f c c' es i Hk Eu); auto. intros E. apply Hne. unfold keys in *. cbn [map]. now f_equal.
+    + now rewrite assoc_set_neq.
+  - destruct (upd es0 f _) as [c'| | |] eqn:Eu; try discriminate. inversion H; subst nd'. clear H.
+    destruct es as [|[k2|p2] es]; unfold info_at in *; cbn [walk_to n_segs n_vars] in *; auto.
+    destruct (list_eq_dec N.eq_dec (spell p2) (spell pat)) as [E0|Hnk].
+    + rewrite E0, find_set_eq. rewrite E0 in Hi. destruct (find_var (spell pat) (n_vars nd)) as [c|] eqn:Ea; [|discriminate].
+      apply (IH f c c' es i Hk Eu); auto. intros E. apply Hne. unfold keys in *. cbn [map edge_key]. rewrite E0. now f_equal.
+    + now rewrite find_set_neq.
+Qed.
